@@ -604,9 +604,22 @@ pub fn run(ctx: &Ctx) -> Outcome {
             }
         }
     }
+    // layer 2: the real stream initialisation against a scripted venue on loopback
+    let init = match super::c06_init::run(ctx) {
+        Ok(st) => st,
+        Err(e) => {
+            eprintln!("MACHINERY: C06 stream-initialisation layer failed: {e}");
+            std::process::exit(2);
+        }
+    };
     Outcome {
         level: "exploration",
         coverage: json!({
+            "init_layer_executions": init.executions,
+            "init_layer_distinct_event_traces": init.distinct_outcomes,
+            "init_layer_events": init.events,
+            "init_layer_samples": init.samples,
+            "init_layer_rule": "real ExchangeWsStream::<BinanceSpotOrderBooksL2Transformer>::init against a scripted loopback venue: updates 1..4 in order (or starting at 2) after the subscription confirmation, REST snapshot at S in 0..=4 (lagging or leading the socket); consumer applies the yielded events in order; after the snapshot the book must equal the venue book at its sequence unless a sequence error was yielded; in-order delivery from id 1 never errors",
             "evaluations": sequences,
             "steps": steps,
             "configurations": n_cfg,
@@ -621,13 +634,16 @@ pub fn run(ctx: &Ctx) -> Outcome {
         assumptions: vec![
             "venue evolutions are the fixed scripts of this file (3 scripts, every composition into updates, every snapshot point); ids are consecutive per instrument".into(),
             "an update carries the absolute amounts (as of its last id) of exactly the levels touched in its id range, as the venue documents".into(),
-            "REST snapshots are well-formed and are delivered to the consumer before the first depth update (the ordering of buffered events inside ExchangeWsStream::init is not exercised: it needs a live socket)".into(),
+            "REST snapshots are well-formed; in the transformer layer they are delivered to the consumer before the first depth update; the ordering of buffered events inside ExchangeWsStream::init is exercised by the separate loopback layer (spot only)".into(),
             "a stale or duplicated message after the chain has started may be dropped or answered with an error (the statement leaves it open)".into(),
         ],
     }
 }
 
 pub fn replay(ctx: &Ctx, case: &Value) {
+    if case["engine"] == "c06-init" {
+        return super::c06_init::replay(ctx, case);
+    }
     let cfg: Cfg = serde_json::from_str(case["label"].as_str().expect("replay: label")).expect("replay: label is not a configuration");
     let scn = Scn::new(cfg);
     println!("configuration: {}", scn.explain(&Sym { inst: 0, k: 0 }));
